@@ -27,6 +27,12 @@ TABLE = [
      "and checked by the KKT certificate plus brute force over all supports; inversion level: datasets with positive, "
      "mixed and negative data x object lists x formalisms x solver flags (KKT of the reduced system, forced zeros, "
      "per-object mapped data).", "4/C05"),
+    ("C09", _SCOPE + " (all small masks x geometries x sub-size maps x a 38-function grammar x schedules and thresholds)",
+     "All masks with <= 9 cells x 12 geometries x sub-size maps (uniform 1..4 (8), every map in {1,2,3}^n for small n, cyclic "
+     "patterns, config-driven adaptive maps) x 38 user functions through the decorator, array_via_func_from, "
+     "binned_array_2d_from and the iterative scheme (3 schedules x accuracies x tolerances): sub-pixel positions and "
+     "order, per-pixel means, areas, index tables, plain evaluation at sub-size one, and the stopping rule transcribed "
+     "from the statement with 1e-9 tie bands excluded.", "4/C09"),
     ("C10", _SCOPE + " (all masks x odd kernel shapes vs brute-force set definitions)",
      "Every mask up to 12 (16) cells, not restricted to a masked outer ring, plus windows inside larger frames, x kernel "
      "shapes {1,3,5}^2: blurring mask (incl. the out-of-frame exception), edge and border sets with exactly the "
